@@ -66,7 +66,7 @@ PROPS = {
              eps=('confirm', 'filter', 'select', 'extra', 'claim', 'pause', 'unpause'), cats=('status', 'ret'), views=('paused',),
              coq=('Proofs/Pause.v',)),
     'C20': P('events: exactly the list of the property with payload = state delta', eps=None, cats=('events',), events=True,
-             coq=('Proofs/Events.v',)),
+             coq=('Proofs/Events.v', 'Proofs/Events2.v')),
 }
 
 
